@@ -149,15 +149,24 @@ Proof.
 Qed.
 
 (* OPEN *)
+Lemma w_ll_restore : forall s, w_ll (w_ll s []) ([] ++ st_ll s) = s.
+Proof. intros s. destruct s. reflexivity. Qed.
+
 Lemma open_replay : forall g t c a s oo ca,
   confirmed_client (oa_client a) (enter t s) = true ->
   find_oos (oa_client a, oa_owner a) (enter t s) = Some oo ->
   oo_intx oo = false -> oo_last oo = Some ca -> oa_seq a = oo_lastseq oo ->
   do_open g t c a s = (enter t s, RpOp (replay_reply KOpen None ca)).
 Proof.
-  intros g t c a s oo ca Hc Ho Hx Hl Hs. unfold do_open. rewrite Hc. simpl.
-  rewrite Ho. rewrite Ho, Hx.
-  rewrite (start_tx_replay _ _ _ _ _ _ Ho Hx Hl Hs). reflexivity.
+  intros g t c a s oo ca Hc Ho Hx Hl Hs. unfold do_open, do_open_body.
+  change (confirmed_client (oa_client a) (w_ll (enter t s) [])) with (confirmed_client (oa_client a) (enter t s)).
+  rewrite Hc. cbn [negb].
+  change (find_oos (oa_client a, oa_owner a) (w_ll (enter t s) [])) with (find_oos (oa_client a, oa_owner a) (enter t s)).
+  rewrite Ho.
+  change (find_oos (oa_client a, oa_owner a) (w_ll (enter t s) [])) with (find_oos (oa_client a, oa_owner a) (enter t s)).
+  rewrite Ho, Hx.
+  rewrite (start_tx_replay (oa_client a, oa_owner a) (oa_seq a) PolReinit (w_ll (enter t s) []) oo ca Ho Hx Hl Hs).
+  rewrite w_ll_restore. reflexivity.
 Qed.
 
 Lemma open_misordered : forall g t c a s oo,
@@ -167,9 +176,15 @@ Lemma open_misordered : forall g t c a s oo,
   replay_candidate oo (oa_seq a) = false -> oa_seq a <> next_seq (oo_lastseq oo) ->
   do_open g t c a s = (enter t s, RpOp (ResStatus ERR_BAD_SEQID)).
 Proof.
-  intros g t c a s oo Hc Ho Hx Hcf Hr Hn. unfold do_open. rewrite Hc. simpl.
-  rewrite Ho. rewrite Ho, Hx.
-  rewrite (start_tx_misordered _ _ _ _ _ Ho Hx Hcf Hr Hn). reflexivity.
+  intros g t c a s oo Hc Ho Hx Hcf Hr Hn. unfold do_open, do_open_body.
+  change (confirmed_client (oa_client a) (w_ll (enter t s) [])) with (confirmed_client (oa_client a) (enter t s)).
+  rewrite Hc. cbn [negb].
+  change (find_oos (oa_client a, oa_owner a) (w_ll (enter t s) [])) with (find_oos (oa_client a, oa_owner a) (enter t s)).
+  rewrite Ho.
+  change (find_oos (oa_client a, oa_owner a) (w_ll (enter t s) [])) with (find_oos (oa_client a, oa_owner a) (enter t s)).
+  rewrite Ho, Hx.
+  rewrite (start_tx_misordered (oa_client a, oa_owner a) (oa_seq a) PolReinit (w_ll (enter t s) []) oo Ho Hx Hcf Hr Hn).
+  rewrite w_ll_restore. reflexivity.
 Qed.
 
 (* LOCK (existing lock-owner) and LOCKU *)
